@@ -15,6 +15,8 @@ func U(t string, key string, r ...string) Op {
 }
 func D(t string, key string) Op { return Op{Kind: OpDelete, Table: t, Vals: []string{key}} }
 func A() Op                     { return Op{Kind: OpAbort} }
+func AC() Op                    { return Op{Kind: OpAbortGoOn} }
+func W(ev string) Op            { return Op{Kind: OpWait, Vals: []string{ev}} }
 
 func upd(o ...Op) Tran { return Tran{Ops: o} }
 func ro(o ...Op) Tran  { return Tran{ReadOnly: true, Ops: o} }
@@ -86,6 +88,13 @@ func AllScenarios() []*Scenario {
 			{upd(I("t", "3", "3", "3"))}}},
 
 		// ---- atomicity / truthful outcome (C03) ----
+		{Name: "abort-then-complete-behind-queued-starts", Group: "atom", Init: t3, Clients: [][]Tran{
+			{upd(I("t", "5", "5", "5"), AC())},
+			{upd(I("t", "6", "6", "6"))},
+			{upd(I("t", "7", "7", "7"))}}},
+		{Name: "abort-then-complete-two-clients", Group: "atom", Init: t3, Clients: [][]Tran{
+			{upd(I("t", "5", "5", "5"), U("t", "1", "1", "9", "1"), AC())},
+			{upd(I("t", "6", "6", "6")), upd(I("t", "7", "7", "7"))}}},
 		{Name: "abort-after-writes", Group: "atom", Init: t3, Clients: [][]Tran{
 			{upd(I("t", "5", "5", "5"), U("t", "1", "1", "9", "1"), A())},
 			{upd(I("t", "6", "6", "6"), D("t", "2"))}}},
@@ -106,6 +115,12 @@ func AllScenarios() []*Scenario {
 			{upd(D("t", "1"), I("t", "8", "8", "8"))}}},
 
 		// ---- snapshot (C02) ----
+		{Name: "reader-new-iterator-after-commit-merge-persist", Group: "snap", Init: t3, Persist: true, PersistAfter: 1, Clients: [][]Tran{
+			{ro(S("t", 0, "", "", 1, 0), W("persist"), S("t", 0, "", "", 1, 0), L("t", 0, "5"), S("t", 1, "", "", -1, 0))},
+			{upd(I("t", "5", "5", "5"), D("t", "1"), U("t", "2", "2", "9", "2"))}}},
+		{Name: "updater-new-iterator-after-others-persisted", Group: "snap", Init: t3, Persist: true, PersistAfter: 1, Clients: [][]Tran{
+			{upd(S("t", 0, "", "", 1, 0), W("persist"), S("t", 0, "", "", 1, 0), S("t", 1, "", "", 1, 0))},
+			{upd(I("t", "5", "5", "5"))}}},
 		{Name: "reader-across-commits", Group: "snap", Init: t3, Clients: [][]Tran{
 			{ro(S("t", 0, "", "", 1, 0), L("t", 0, "5"), S("t", 0, "", "", 1, 0), S("t", 1, "", "", -1, 0))},
 			{upd(I("t", "5", "5", "5")), upd(D("t", "1"))}}},
